@@ -9,7 +9,7 @@ import numpy as np
 
 from vlib.core import Result, pmap, merge_results, SEED, quiet
 from vlib import geom
-from vlib.grids import fresh_sphere_grid, dense
+from vlib.grids import scribble, fresh_sphere_grid, dense
 
 ADJ_YES, ADJ_NO = 1e-7, 1e-12
 LEVELS = {"ico": (12, 42, 162, 642), "cube3D": (8, 26, 98, 386)}
@@ -29,11 +29,13 @@ def judge(case):
             adj = g.get_voronoi_adjacency()
             bor = g.get_cell_borders()
             dis = g.get_center_distances()
-            areas = np.asarray(g.get_voronoi_volumes())
+            areas_raw = g.get_voronoi_volumes()
+            areas = np.array(areas_raw, dtype=float)
     except Exception as e:
         return [f"{alg}_{N}: getter raised {type(e).__name__}: {e}"], info
     msgs = []
     A, B, Dm = dense(adj).astype(float), dense(bor).astype(float), dense(dis).astype(float)
+    adj_rc = (adj.tocoo().row.copy(), adj.tocoo().col.copy())
     if A.shape != (N, N) or B.shape != (N, N) or Dm.shape != (N, N) or areas.shape != (N,):
         return [f"{alg}_{N}: shapes {A.shape} {B.shape} {Dm.shape} {areas.shape}"], info
     orc = geom.s2_voronoi(P)
@@ -63,7 +65,7 @@ def judge(case):
         msgs.append(f"{alg}_{N}: the three matrices do not share one pattern")
     for name, sp in (("adjacency", adj), ("borders", bor), ("distances", dis)):
         c = sp.tocoo()
-        if not (np.array_equal(c.row, adj.tocoo().row) and np.array_equal(c.col, adj.tocoo().col)):
+        if not (np.array_equal(c.row, adj_rc[0]) and np.array_equal(c.col, adj_rc[1])):
             msgs.append(f"{alg}_{N}: {name} stored entry order differs from the adjacency")
     both = lib_adj & yes
     if both.any():
@@ -88,9 +90,17 @@ def judge(case):
     # true tessellation: the statement is about the grid, not about the first call
     try:
         with quiet():
+            # what a caller does with results it was handed: converts units / masks them in place
+            for handed in (adj, bor, dis, areas_raw):
+                scribble(handed)
             g.get_spherical_voronoi().get_voronoi_volumes(approx=True)
-            g.get_center_distances(), g.get_cell_borders(), g.get_voronoi_adjacency()
+            dis1, bor1, adj1 = g.get_center_distances(), g.get_cell_borders(), g.get_voronoi_adjacency()
             areas_again = np.asarray(g.get_voronoi_volumes())
+        if not (np.array_equal(dense(bor1).astype(float), B) and np.array_equal(dense(adj1).astype(float), A)
+                and np.array_equal(dense(dis1).astype(float), Dm)):
+            msgs.append(f"{alg}_{N}: after the caller edited the matrices it was handed in place, the same grid reports other "
+                        f"adjacency / borders / distances")
+        with quiet():
             # and a second object of the same grid on which the getters are called in another order, estimate first
             g2 = fresh_sphere_grid(alg, N)
             g2.get_spherical_voronoi().get_voronoi_volumes(approx=True)
@@ -98,8 +108,8 @@ def judge(case):
             areas2 = np.asarray(g2.get_voronoi_volumes())
         if not np.array_equal(areas_again, areas):
             msgs.append(f"{alg}_{N}: the exact areas change when asked again after the approximate estimate")
-        if not (np.array_equal(areas2, areas) and np.array_equal(dense(bor2), dense(bor)) and np.array_equal(dense(adj2), dense(adj))
-                and np.array_equal(dense(dis2), dense(dis))):
+        if not (np.array_equal(areas2, areas) and np.array_equal(dense(bor2).astype(float), B) and np.array_equal(dense(adj2).astype(float), A)
+                and np.array_equal(dense(dis2).astype(float), Dm)):
             dev = float(np.abs(areas2 - areas).max()) if areas2.shape == areas.shape else float("nan")
             msgs.append(f"{alg}_{N}: asking the same grid again (after the approximate estimate and the other getters) changes "
                         f"the reported geometry (areas differ by up to {dev:.3g})")
